@@ -70,6 +70,8 @@ def fmt_exc(ex):
         return "!invalidFilter"
     if isinstance(ex, RuntimeError) and s == "grouping policy elements do not meet role definition":
         return "!roleDefinition"
+    if isinstance(ex, RuntimeError) and s == "invalid file path, file path cannot be empty":
+        return "!invalidPath"
     return f"!other:{type(ex).__name__}:{s[:60]}"
 
 
@@ -210,6 +212,11 @@ def gen_ops(rng, mname, mode):
             ops.append(["save"])
         else:
             ops.append(["asave"])
+    if rng.random() < 0.25:
+        # the policy file is missing for a while (store temporarily unreachable), then back
+        i = rng.randrange(len(ops) + 1)
+        j = rng.randrange(i, len(ops) + 1)
+        ops = ops[:i] + [["gone"]] + ops[i:j] + [["back"]] + ops[j:]
     return ops
 
 
@@ -281,6 +288,7 @@ def impl_history(casbin, mname, text, ops, tmp):
     from casbin.persist.adapters import FilteredFileAdapter
 
     path = tmp.path()
+    away = path + ".away"
     pc.write_bytes(path, text)
     m = casbin.Enforcer.new_model(text=MODELS[mname])
     a = FilteredFileAdapter(path)
@@ -298,11 +306,23 @@ def impl_history(casbin, mname, text, ops, tmp):
                 e.save_policy()
             elif op[0] == "asave":
                 e.get_adapter().save_policy(e.get_model())
+            elif op[0] == "gone":
+                if os.path.exists(path):
+                    os.replace(path, away)
+            elif op[0] == "back":
+                if os.path.exists(away):
+                    if os.path.exists(path):
+                        os.unlink(away)  # a permitted save re-created the file meanwhile
+                    else:
+                        os.replace(away, path)
             res = "ok"
         except Exception as ex:  # noqa
             res = fmt_exc(ex)
-        obs.append((res, pc.dump_model(e.model), bool(e.is_filtered()), pc.read_text(path), edges_of(e, mname), decisions(e) if res == "ok" and op[0] != "save" and op[0] != "asave" else None))
-    os.unlink(path)
+        ftext = pc.read_text(path if os.path.exists(path) else away)
+        obs.append((res, pc.dump_model(e.model), bool(e.is_filtered()), ftext, edges_of(e, mname), decisions(e) if res == "ok" and op[0] in ("load", "loadf", "loadinc") else None))
+    for f in (path, away):
+        if os.path.exists(f):
+            os.unlink(f)
     return obs
 
 
@@ -338,6 +358,10 @@ def eval_history(casbin, part, mode, mname, text, ops, ans, tmp):
         a_op, a_obs = ans[pos], ans[pos + 1]
         pos += 2
         case = dict(case0, ops=ops[: i + 1])  # the history up to the judged step
+        if op[0] in ("gone", "back"):
+            if a_op != "ok":
+                raise common.Infra(f"driver answered {a_op!r} for {op}")
+            continue
         model, spec, dom = pc.parse_msd(a_op)
         mo = parse_obs(a_obs)
         res, store, filtered, ftext, edges, decs = obs[i]
@@ -351,8 +375,11 @@ def eval_history(casbin, part, mode, mname, text, ops, ans, tmp):
         if impl_state != model_state or [tuple(x) for x in edges] != medges:
             part.disagree(dict(case, what=f"step {i} ({op[0]}): Enforcer+FilteredFileAdapter vs Model.step", step=i, impl=impl_state + (edges,), model=model_state + (medges,)))
             # the states before this step agreed, so the specification of this step still applies to the
-            # implementation: judge it, then stop following this history
-            stop = True
+            # implementation: judge it, then stop following this history - unless only the adapter's flag differs: the
+            # specification of the following saves (ghost state + file) does not depend on it, and those saves are
+            # exactly where a wrong flag becomes a violation
+            if (impl_state[0], impl_state[1], impl_state[3]) != (model_state[0], model_state[1], model_state[3]) or [tuple(x) for x in edges] != medges:
+                stop = True
         # ---- the property
         if spec != "?":
             if op[0] in ("loadf", "loadinc", "load"):
@@ -389,15 +416,20 @@ def eval_history(casbin, part, mode, mname, text, ops, ans, tmp):
                 sres, sfile = spec.split(",")
                 got = (res, enc_str(ftext))
                 mgot = (model.split(",")[0], mo["file"])
-                if mgot != (sres, sfile):
+                # the result of the last load before this save; after a load the ENFORCER rejected (role definition) the
+                # model reproduces the open finding F26b (Props/C12 enforcer_rollback_ends_filtered_state_witness), so the
+                # theorems (LoadsOk histories, failed reads, missing file) do not speak about it
+                last = next((obs[j][0] for j in range(i - 1, -1, -1) if ops[j][0] in ("load", "loadf", "loadinc")), "ok")
+                if mgot != (sres, sfile) and last != "!roleDefinition":
                     part.mvs(dict(case, step=i, model=mgot, spec=(sres, sfile)))
                 if res == "!cannotSaveFiltered":
                     part.nontrivial.add(hash((mname, text, repr(ops[: i + 1]), "refused")))
                 if got != (sres, sfile):
+                    after = "" if last == "ok" else ":after-failed-load:" + last.split(":")[0]
                     found.append(
                         dict(
                             case,
-                            signature=f"{op[0]}:" + ("not-refused" if sres.startswith("!") and res == "ok" else "refused" if res.startswith("!") else "file"),
+                            signature=f"{op[0]}:" + ("not-refused" if sres.startswith("!") and res == "ok" else "refused" if res.startswith("!") else "file") + after,
                             what=f"step {i}: {op[0]} gave {res} and left the file as {ftext!r}; expected {sres} and {dec_str(sfile)!r}",
                             step=i,
                             expected=[sres, sfile],
@@ -546,7 +578,7 @@ def _stage(ctx, res, nin, nout, nraise):
     res.rule = (
         f"filter_line on {len(FL_LINES)} lines x every filter over {FVALS}^<=3 x ^<=3 (exhaustive); {nin} generated policy files inside the theorem's domain, {nout} outside "
         f"(F20 territory) and {nraise} with raising lines, each with a random sequence (<= 4) of load_filtered_policy / load_increment_filtered_policy / load_policy / "
-        "save_policy / adapter.save_policy on Enforcer+FilteredFileAdapter over real temp files (models rbac2, dom, nog); after every step policy of every type, is_filtered, "
+        "save_policy / adapter.save_policy (a quarter of the histories with a window in which the policy file is missing) on Enforcer+FilteredFileAdapter over real temp files (models rbac2, dom, nog); after every step policy of every type, is_filtered, "
         "links (get_roles), result and file text are compared, and after every successful load all 27 requests over the names are decided by enforce() and by a fresh enforcer holding exactly the specified subset; non-trivial = a load leaving rules in memory / a refused save"
     )
 
